@@ -120,7 +120,11 @@ func runWorker(p *Property, tier string, seed int64, from, to int, out string, v
 				return w.Run()
 			}()
 			if msg != "" {
-				c.Violation("witness:"+w.Name, "", "a defect recorded as fixed is back: "+msg)
+				if strings.HasPrefix(w.Name, "directed:") {
+					c.Violation("witness:"+w.Name, "", "directed case failed: "+msg)
+				} else {
+					c.Violation("witness:"+w.Name, "", "a defect recorded as fixed is back: "+msg)
+				}
 			}
 			c.Count("witnesses_of_repaired_defects_run", 1)
 			c.End()
